@@ -589,7 +589,7 @@ class Sim:
                     raise RuntimeError("cannot schedule new futures after shutdown")
                 fut = Future()
                 self._work.append((fut, fn, args, kwargs))
-                sim.log("pool.submit", None, pool=self._prefix)
+                sim.log("pool.submit", None, pool=self._prefix, pid=self._pid)
                 # like concurrent.futures: reuse a worker that went idle after finishing a task
                 # (the idle semaphore is released only then), otherwise start a new one
                 if self._idle > 0:
@@ -614,7 +614,7 @@ class Sim:
                     if fut._state == "CANCELLED":
                         continue
                     fut._state = "RUNNING"
-                    sim.log("pool.begin", None, pool=self._prefix,
+                    sim.log("pool.begin", None, pool=self._prefix, pid=self._pid,
                             idx=next((getattr(a, "index", None) for a in args if hasattr(a, "index") and hasattr(a, "func")), None))
                     self._running += 1
                     self.max_running = max(self.max_running, self._running)
